@@ -279,6 +279,9 @@ func cmdCheck(args []string) {
 		if v, ok := params["_unwind"]; ok {
 			cfg.Unwind = v
 		}
+		if v, ok := params["_maxsteps"]; ok {
+			cfg.MaxSteps = int64(v)
+		}
 		cfg.Budget = 600 * time.Second
 		if *tier == "thorough" {
 			cfg.Budget = 900 * time.Second
